@@ -360,6 +360,17 @@ func (r *coreRun) doWrite(name string, op map[string]interface{}) (ipfslog.Entry
 				ks = append(ks, dk)
 			}
 			sort.Strings(ks)
+			// every second batch lists its first key twice: a superseded version first, the version of the
+			// specification's operation after it (the later member of a batch wins, as with PutBatch)
+			if r.step%2 == 1 && len(ks) > 0 {
+				for _, alt := range r.in.Vals {
+					if alt != asStr(m[ks[0]]) {
+						docs = append(docs, r.cc.doc(ks[0], alt))
+						r.res.Stats["putall_duplicate_key"]++
+						break
+					}
+				}
+			}
 			for _, dk := range ks {
 				docs = append(docs, r.cc.doc(dk, asStr(m[dk])))
 			}
